@@ -31,6 +31,32 @@ fn spec(s: ChannelSpec) -> String {
         n += 1; if n > 64 { dims.push("HANG".to_string()); break; }
         match d { Ok(v) => dims.push(v.to_string()), Err(e) => { dims.push(format!("E{}", e.get_code())); break; } }
     }
+    // the other ways of walking the dimensions (Iterator::nth / skip / step_by / last / count, after a first next() too)
+    // must agree with the plain walk when every dimension is a number
+    if dims.len() >= 1 && dims.iter().all(|d| !d.starts_with('E') && d != "HANG") {
+        let all: Vec<String> = dims.clone();
+        let get = |r: Option<core::result::Result<isize, scpi::error::ErrorCode>>| match r { Some(Ok(v)) => v.to_string(), Some(Err(e)) => format!("E{}", e.get_code()), None => "-".to_string() };
+        let mut bad = Vec::new();
+        for k in 0..all.len() + 1 {
+            let mut it = s.into_iter();
+            let got = get(it.nth(k));
+            if got != all.get(k).cloned().unwrap_or("-".into()) { bad.push(format!("nth({})={}", k, got)); }
+            if k >= 1 {
+                let mut it = s.into_iter(); let _ = it.next();
+                let got = get(it.nth(k - 1));
+                if got != all.get(k).cloned().unwrap_or("-".into()) { bad.push(format!("next;nth({})={}", k - 1, got)); }
+                let mut it = s.into_iter(); let _ = it.next();
+                let got = get(it.skip(k - 1).next());
+                if got != all.get(k).cloned().unwrap_or("-".into()) { bad.push(format!("next;skip({})={}", k - 1, got)); }
+            }
+        }
+        let stepped: Vec<String> = s.into_iter().step_by(2).map(|r| get(Some(r))).collect();
+        let want: Vec<String> = all.iter().step_by(2).cloned().collect();
+        if stepped != want { bad.push(format!("step_by(2)={}", stepped.join("!"))); }
+        if s.into_iter().count() != all.len() { bad.push(format!("count={}", s.into_iter().count())); }
+        if get(s.into_iter().last()) != *all.last().unwrap() { bad.push("last".to_string()); }
+        if !bad.is_empty() { dims.push(format!("ITERATOR-INCONSISTENT[{}]", bad.join(";"))); }
+    }
     let c1 = match <isize>::try_from(s) { Ok(v) => v.to_string(), Err(e) => format!("E{}", e.get_code()) };
     let c2 = match <(isize, isize)>::try_from(s) { Ok(v) => format!("{}_{}", v.0, v.1), Err(e) => format!("E{}", e.get_code()) };
     let c3 = match <(isize, isize, isize)>::try_from(s) { Ok(v) => format!("{}_{}_{}", v.0, v.1, v.2), Err(e) => format!("E{}", e.get_code()) };
